@@ -276,7 +276,7 @@ def encDecls (env : Env) : List (String × String) → Option Bytes
     let rest ← encDecls env r
     pure (bs ++ rest)
 
-private theorem foldlM_encDecls (env : Env) (ds : List (String × String)) (acc : Bytes) :
+theorem foldlM_encDecls (env : Env) (ds : List (String × String)) (acc : Bytes) :
     ds.foldlM (fun acc (ft : String × String) => do
         let v ← env.get ft.1
         let bs ← encField ft.2 v
